@@ -76,6 +76,7 @@ type Contract struct {
 	Inputs      []AssertSpec // assumptions about data read from external input (listed as entry preconditions)
 	Sends       []AssertSpec
 	Sorts       map[string]*SortSpec         // by call label, e.g. "Sort#1"
+	InlineCalls map[string]bool              // callees encoded by their bodies inside this function
 	Insts       map[string]map[string]*SExpr // call label -> callee ghost name -> expression (caller's choice)
 	Used        bool
 }
@@ -102,7 +103,7 @@ type ContractSet struct {
 	Files   []string
 }
 
-var kwRe = regexp.MustCompile(`^(define|func|trusted|inline|ghost|requires|ensures|modifies|loop|invariant|decreases|assert|assume-input|sends|sort|instantiate)\b`)
+var kwRe = regexp.MustCompile(`^(define|func|trusted|inline-calls|inline|ghost|requires|ensures|modifies|loop|invariant|decreases|assert|assume-input|sends|sort|instantiate)\b`)
 
 func splitTop(s string, sep byte) []string {
 	var out []string
@@ -319,6 +320,17 @@ func (cs *ContractSet) loadFile(file string) error {
 					return fail(err)
 				}
 				curLoop.Decreases = e
+			case "inline-calls":
+				// inline-calls f, g, ... : inside this function these (loop-free) callees are
+				// encoded by their bodies instead of their contracts (no precondition obligations)
+				if cur.InlineCalls == nil {
+					cur.InlineCalls = map[string]bool{}
+				}
+				for _, f := range strings.Split(st.text, ",") {
+					if f = strings.TrimSpace(f); f != "" {
+						cur.InlineCalls[f] = true
+					}
+				}
 			case "instantiate":
 				// instantiate f#k ghost = EXPR : the callee's ghost is chosen by the caller at this call
 				fs := strings.SplitN(st.text, " ", 2)
